@@ -69,6 +69,9 @@ pub struct InvObs {
     pub macro_panic: Option<String>,
     /// evaluation count per argument: key, value, then tag key/value pairs
     pub arg_counts: Vec<u32>,
+    /// argument indices (0 = key, 1 = value, 2.. = tag key/value pairs) in evaluation order
+    #[serde(default)]
+    pub arg_order: Vec<u32>,
     pub chain_emitted: Vec<String>,
     pub chain_handler: Vec<SerErr>,
     pub chain_panic: Option<String>,
@@ -101,16 +104,20 @@ pub struct ChildObs {
 
 fn once<T>(c: &Cell<u32>, v: T) -> T {
     c.set(c.get() + 1);
+    ARG_ORDER.with(|o| o.borrow_mut().push(c as *const Cell<u32> as usize));
     v
 }
 
 thread_local! {
     static ARG_PANICS: Cell<bool> = const { Cell::new(false) };
+    /// addresses of the counters in the order in which the argument expressions were evaluated
+    static ARG_ORDER: std::cell::RefCell<Vec<usize>> = const { std::cell::RefCell::new(Vec::new()) };
 }
 
 /// like `once`, for the value argument: panics (harness panic) when the case says so
 fn once_val<T>(c: &Cell<u32>, v: T) -> T {
     c.set(c.get() + 1);
+    ARG_ORDER.with(|o| o.borrow_mut().push(c as *const Cell<u32> as usize));
     if ARG_PANICS.with(|f| f.get()) {
         panic!("{} (macro argument expression)", util::HARNESS_PANIC);
     }
@@ -257,8 +264,15 @@ pub fn child_main() -> i32 {
         let cnt: Vec<Cell<u32>> = (0..8).map(|_| Cell::new(0)).collect();
         handle.arm(inv.sink, 2 * i as u64 + 1);
         ARG_PANICS.with(|f| f.set(inv.arg_panics));
+        ARG_ORDER.with(|o| o.borrow_mut().clear());
         let r = util::catch(|| invoke_macro(inv, &cnt));
         ARG_PANICS.with(|f| f.set(false));
+        o.arg_order = ARG_ORDER.with(|ord| {
+            ord.borrow()
+                .iter()
+                .filter_map(|a| cnt.iter().position(|c| c as *const Cell<u32> as usize == *a).map(|i| i as u32))
+                .collect()
+        });
         match r {
             Ok(Ok(())) => {}
             Ok(Err(m)) => {
@@ -375,6 +389,17 @@ pub fn judge(case: &MacroCase, obs: &ChildObs) -> Vec<String> {
         if let Some(p) = &o.chain_panic {
             bad.push(format!("invocation #{}: explicit chain panicked: {}", i, p));
             continue;
+        }
+        // ... in the order written (key, value, then the tag pairs): that is the order of the tagged
+        // call chain, and with argument expressions that share state it decides what is sent
+        if o.arg_counts.iter().all(|c| *c == 1) && !o.arg_order.is_empty() && o.arg_order.windows(2).any(|w| w[0] > w[1]) {
+            bad.push(format!(
+                "invocation #{} ({:?}, {} tags): arguments were evaluated in the order {:?} (0 = key, 1 = value, 2.. = tag keys/values), the tagged call chain evaluates them as written",
+                i,
+                inv.entry,
+                inv.tags.len(),
+                o.arg_order
+            ));
         }
         // each argument evaluated exactly once
         if o.arg_counts.iter().any(|c| *c != 1) {
